@@ -2344,6 +2344,7 @@ class ReShuffleDataset(Dataset):
         else:
             return self.__class__(
                 input_dataset=self.input_dataset.copy(freeze=freeze),
+                rng=self.rng,
             )
 
     @property
@@ -2465,6 +2466,7 @@ class LocalShuffleDataset(Dataset):
         return self.__class__(
             input_dataset=self.input_dataset.copy(freeze=freeze),
             buffer_size=self.buffer_size,
+            rng=self.rng,
         )
 
     @property
